@@ -93,6 +93,7 @@ def run(rep):
     short_reads(rep, fns)
     fixed_buffers(rep, fns)
     jmp_typestate(rep, fns)
+    run_bounds(rep, fns)
     from .p06 import accept_inconclusive
     accept_inconclusive(rep, "c11_inconclusive.json")
 
@@ -321,3 +322,107 @@ def jmp_typestate(rep, fns):
                 rep.violation("R4b-copied-reader", key, W + "extension/io/%s/detail/read.hpp" % fmt,
                               {"constructor_stores": st + " = this", "problem": "read_image/read_view run apply() on a copy of the reader; the error handler finds the jump buffer through this pointer, i.e. in the object the copy was made from, armed by its constructor: any libjpeg error during apply() jumps into a dead frame"})
     rep.floor("obligations:R4b", 1)
+
+
+def _assigned_vars(n):
+    out = set()
+    for x, _ in R.find(n, lambda x: x.get("k") in ("Assign", "CompoundAssign") or (x.get("k") == "Unary" and x.get("op") in ("++", "--"))):
+        out.add(R.key(x.get("l") if "l" in x else x.get("e")))
+    return out
+
+
+def run_bounds(rep, fns):
+    """R5: writes whose position advances with a count taken from the file"""
+    rep.rule("R5a (iterator cursor) a loop `for(i<N)` that stores through a post-incremented cursor `*C++ = ...` is preceded by the clamp/guard "
+             "`if (N > E - C) N = E - C` or `if (N > E - C) io_error` on the same cursor C and end E, with N not reassigned in between; a second "
+             "store in one iteration is guarded by a comparison of the incremented counter with the same N")
+    rep.rule("R5b (index cursor) a block write memcpy(&V[p], .., len) / device.read(&V[p], len) whose position p advances by file-derived amounts is "
+             "dominated by a guard len <= size - p (or p + len <= size) on the same p")
+    seen = {}
+    for f in fns:
+        if fmt_of(f) not in ("bmp", "targa", "pnm") or f.get("body") is None:
+            continue
+        fname = "%s:%s::%s" % (fmt_of(f), f["name"].split("::")[-2], f["name"].split("::")[-1])
+        # ---- R5a
+        for loop, lp in R.find(f["body"], lambda x: x.get("k") == "For"):
+            cond = R.strip(loop.get("cond")) if loop.get("cond") is not None else None
+            if cond is None or cond.get("k") != "Binary" or cond.get("op") != "<":
+                continue
+            ivar, N = R.key(cond["l"]), R.key(cond["r"])
+            stores = [(c, p) for c, p in R.find(loop.get("body"), lambda x: x.get("k") == "Call" and x.get("op") == "=" and re.match(r"\(\(\*\((\w+) \+\+ 0\)\) = ", R.key(x)))]
+            if not stores:
+                continue
+            cursor = re.match(r"\(\(\*\((\w+) \+\+ 0\)\) = ", R.key(stores[0][0])).group(1)
+            # the clamp / guard before the loop: walk the earlier siblings in the enclosing blocks, innermost first
+            want = None
+            found = None
+            for anc, field, idx in reversed(lp):
+                if anc.get("k") != "Compound" or field != "c" or idx is None:
+                    continue
+                for sib in reversed(anc["c"][:idx]):
+                    s = R.strip(sib)
+                    if N in _assigned_vars(s) and not (s.get("k") == "If"):
+                        found = ("reassigned", R.key(s)[:80]) if s.get("k") in ("Assign",) and found is None and False else found
+                    if s.get("k") == "If" and s.get("else") is None:
+                        c = R.strip(s["cond"])
+                        if c.get("k") == "Binary" and c.get("op") == ">" and R.key(c["l"]) == N:
+                            bound = R.key(c["r"])
+                            then = R.strip(s["then"])
+                            body = [R.strip(x) for x in (then.get("c", []) if then.get("k") == "Compound" else [then])]
+                            if len(body) == 1 and body[0].get("k") == "Assign" and R.key(body[0]["l"]) == N:
+                                found = ("clamp", bound, R.key(body[0]["r"]))
+                            elif R.is_exit(then):
+                                found = ("guard", bound, bound)
+                            break
+                if found:
+                    break
+            rhs = R.key(stores[0][0]).split(" = ", 1)[1].rstrip(")")
+            key = "R5a:%s:run of %s through %s storing %s" % (fname, N, cursor, rhs)
+            ok, why = False, "no clamp/guard of %s before the loop" % N
+            if found and found[0] in ("clamp", "guard"):
+                m = re.fullmatch(r"\((\w+) - (\w+)\)", found[1])
+                if m and m.group(2) == cursor and found[1] == found[2]:
+                    ok, why = True, "%s: %s <= %s" % (found[0], N, found[1])
+                else:
+                    why = "%s compares %s with %s (and sets it to %s): not the room left behind the cursor %s" % (found[0], N, found[1], found[2], cursor)
+            # second and later stores of one iteration
+            if ok and len(stores) > 1:
+                for c, p in stores[1:]:
+                    gs = R.guards(p)
+                    g2 = [(op, l, r) for op, l, r in gs if ("++" + ivar) in l.replace(" ", "") or ("(++%s)" % ivar) == l]
+                    if not any(r == N for op, l, r in g2):
+                        ok, why = False, "the store at line %s follows `++%s` and is guarded by a comparison with %s, not with the clamped %s" % (c.get("line"), ivar, [r for _, _, r in g2], N)
+            prev = seen.get(key)
+            if prev is None or (prev[0] and not ok):
+                seen[key] = (ok, why, rel(f), loop.get("line"))
+        # ---- R5b
+        for c, p in R.find(f["body"], lambda x: x.get("k") == "Call" and (re.search(r"(^|::)memcpy$", (x.get("callee") or {}).get("name", "")) or
+                                                               (re.search(r"_device::read$", (x.get("callee") or {}).get("name", "")) and len(x.get("args", [])) == 2))):
+            args = c["args"]
+            dst = R.key(args[0])
+            m = re.fullmatch(r"\(&(\w+)\[(\w+)\]\)", dst)
+            if not m:
+                continue
+            vec, pos = m.group(1), m.group(2)
+            ln = R.key(args[-1])
+            if pos not in _assigned_vars(f["body"]):
+                continue
+            gs = R.guards(p)
+            ok, why = False, "no guard relates %s + %s to the size of %s" % (pos, ln, vec)
+            for op, l, r in gs:
+                o, l2, r2 = op, l, r
+                txt = "%s %s %s" % (l2, o, r2)
+                if pos in txt and ln.strip("()") in txt.replace("(", "").replace(")", "") and o in ("<=", ">=", "<", ">") and ("-" in txt or "+" in txt):
+                    ok, why = True, "guard " + txt
+            key = "R5b:%s:%s[%s..+%s]" % (fname, vec, pos, ln)
+            prev = seen.get(key)
+            if prev is None or (prev[0] and not ok):
+                seen[key] = (ok, why, rel(f), c.get("line"))
+    for key, (ok, why, file, line) in sorted(seen.items()):
+        rep.count("obligations:R5")
+        if ok:
+            rep.ok("R5-run-bounds", key, why)
+        else:
+            rep.violation("R5-run-bounds", key, "%s:%s" % (file, line), {"problem": why + ": a crafted run length writes past the end of the decode buffer"})
+    rep.floor("obligations:R5", 6)
+    rep.floor("rule:R5-run-bounds", 6)
